@@ -3,13 +3,15 @@ META = dict(
     title='Acceleration shortcuts never change an answer',
     technique='CBMC code contracts (DFCC) on the mechanically extracted BoundingBox<2> tests (concrete IEEE arithmetic for the buffered comparison; alias wrapper by call protocol)',
     level_text='Partial. Proof for all finite corners/points and every tolerance in [0,1]: the bounding-box test used to cull slabs and faults never '
-               'rejects a point of the closed core box, and in spherical worlds it also accepts a point whose 2-pi longitude alias lies in the box.',
+               'rejects a point of the closed core box, and in spherical worlds it also accepts a point whose 2-pi longitude alias lies in the box. '
+               'Proof for 18 area-feature models (uniform/adiabatic/linear/chapman/constant-age temperature, uniform and random composition, uniform raw velocity): after parse_entries '
+               'the global bounds tested before the depth surfaces are evaluated are exactly the minimum of the min-depth surface and the maximum of the max-depth surface.',
     level_note='Trusted: translator, CBMC. Not covered: that the box built in parse_entries contains the slab (trench coordinates extended by '
-               'length + thickness vs. the Bezier trench curve), the depth cut-off from maximum length + thickness, min/max pre-tests of depth '
-               'surfaces and the nearest-triangle search: the functions that build and use them (SubductingPlate/Fault parse_entries and properties, '
+               'length + thickness vs. the Bezier trench curve), the depth cut-off from maximum length + thickness, that Objects::Surface computes minimum/maximum over its nodal values and interpolates between them, '
+               'the nearest-triangle search: the functions that build and use them (SubductingPlate/Fault parse_entries and properties, '
                'Surface) are not under contract here (see DESIGN 15), so the two C07 candidates of DESIGN 7.1 are not decided by this check.',
-    scope='BoundingBox<2>::point_inside_implementation, BoundingBox<2>::point_inside',
-    not_covered=['box construction and buffers in parse_entries', 'depth cut-off derived from slab length and thickness', 'Surface min/max pre-tests, kd-tree/nearest-triangle search'],
+    scope='BoundingBox<2>::point_inside_implementation, BoundingBox<2>::point_inside; parse_entries of 18 area-feature models (depth bounds wiring)',
+    not_covered=['box construction and buffers in parse_entries', 'depth cut-off derived from slab length and thickness', 'Objects::Surface itself (minimum/maximum, kd-tree/nearest-triangle search)', 'depth bounds wiring of the models with loops in parse_entries (uniform grains, half space, plate model, random grains) and of the three feature classes themselves'],
     enforced_elsewhere={'BoundingBox2_point_inside_implementation': 'C07/box_impl'},
 )
 TU = 'source/world_builder/features/subducting_plate.cc'
@@ -23,6 +25,30 @@ UNITS = [
          stub=['BoundingBox2_point_inside_implementation'], nothrow=['BoundingBox2_point_inside_implementation'],
          replace=['BoundingBox2_point_inside_implementation'], outline_fp='all', defines={'WB_VEC_CAP': 2}, expect_fail=['REACHABILITY-GUARD']),
 ]
+
+
+# depth bounds of the area-feature models: global pre-test bounds == extremes of the depth surfaces (contracts/c07_model_bounds.c)
+_CLS = {'random': 'Random', 'uniform': 'Uniform', 'random_uniform_distribution': 'RandomUniformDistribution',
+        'random_uniform_distribution_deflected': 'RandomUniformDistributionDeflected', 'adiabatic': 'Adiabatic', 'chapman': 'Chapman',
+        'linear': 'Linear', 'uniform_raw': 'UniformRaw', 'plate_model_constant_age': 'PlateModelConstantAge'}
+_MODELS = [('ContinentalPlate', 'continental_plate', k, f) for k, f in [('Composition', 'random'), ('Composition', 'uniform'), ('Temperature', 'adiabatic'),
+                                                                        ('Temperature', 'chapman'), ('Temperature', 'linear'), ('Temperature', 'uniform'), ('Velocity', 'uniform_raw')]] + \
+          [('MantleLayer', 'mantle_layer', k, f) for k, f in [('Composition', 'uniform'), ('Temperature', 'adiabatic'), ('Temperature', 'linear'),
+                                                              ('Temperature', 'uniform'), ('Velocity', 'uniform_raw')]] + \
+          [('OceanicPlate', 'oceanic_plate', k, f) for k, f in [('Composition', 'uniform'), ('Temperature', 'adiabatic'), ('Temperature', 'linear'),
+                                                                ('Temperature', 'uniform'), ('Temperature', 'plate_model_constant_age'), ('Velocity', 'uniform_raw')]]
+for _fam, _fdir, _kind, _file in _MODELS:
+    _mt = 'Features_%sModels_%s_%s' % (_fam, _kind, _CLS[_file])
+    UNITS.append(dict(
+        name='%s_%s_%s_bounds' % (_fdir, _kind[0], _file), enforce=_mt + '_parse_entries', contracts='c07_model_bounds.c', harness='h_model_bounds',
+        targets=[dict(tu='source/world_builder/features/%s_models/%s/%s.cc' % (_fdir, _kind.lower(), _file),
+                      qual='WorldBuilder::Features::%sModels::%s::%s::parse_entries' % (_fam, _kind, _CLS[_file]))],
+        stub_prefixes=['Parameters_', 'Objects_Surface_'], stub=['Utilities_euler_angles_to_rotation_matrix'], auto_stubs=True, auto_loops=True,
+        replace=['Parameters_get_vector__string__ret_double'] if _file == 'uniform_raw' else [],
+        outline_fp='all', defines=dict({'MTYPE': _mt, 'MFUNC': _mt + '_parse_entries', 'WB_VEC_CAP': 2, 'WB_CAP_vec_double': 3},
+                                       **({'NEED_WORLD': 1} if _file in ('adiabatic', 'chapman', 'linear', 'plate_model_constant_age') else {}),
+                                       **({'VEL3': 1} if _file == 'uniform_raw' else {})),
+        expect_fail=['REACHABILITY-GUARD']))
 
 
 # ----------------------------------------------------------------------------- native replay oracle
